@@ -9,6 +9,8 @@ package c15
 
 import (
 	"bytes"
+	"crypto/sha256"
+	"encoding/hex"
 	"encoding/json"
 	"fmt"
 	"os"
@@ -32,8 +34,8 @@ func init() {
 		Level: "exploration",
 		Rule: "a chart is a file set: baseline (Chart.yaml v2, values.yaml, one template) plus every conflict-free subset of <=2 (quick) / <=3 (thorough) deviations from a table of " +
 			fmt.Sprint(len(devTable)) + " (apiVersion v1 +requirements.yaml/.lock, all optional metadata, declared dependencies, Chart.lock, schema, 5 file-name shapes, 5 contents x {file,template,values} + 3 x Chart.yaml, " +
-			"4 dependency layouts, 28 .helmignore rule sets with 27 probe files); each runs LoadFiles->Save->LoadFile, LoadFiles->SaveDir->LoadDir, dir->LoadDir vs dir->Package->LoadFile, dir->LoadDir vs own-tar->LoadFile; " +
-			"plus invalid name/version x <=1 deviation x {Save, Package, Package --version}. distinct = (deviation set) / (invalid tuple); every case is non-trivial: it reaches the tar writer or a validation error",
+			"4 dependency layouts, 28 .helmignore rule sets with " + fmt.Sprint(len(probeNames)) + " probe files); each runs LoadFiles->Save->LoadFile, LoadFiles->SaveDir->LoadDir, dir->LoadDir vs dir->Package->LoadFile, dir->LoadDir vs own-tar->LoadArchive; " +
+			"plus invalid name/version x <=1 deviation (one .helmignore set only) x {Save, Package, Package --version}. distinct = (resulting file set) / (invalid tuple); every case is non-trivial: it reaches the tar writer or a validation error",
 		Run:    run,
 		Replay: replay,
 		Assumptions: []string{
@@ -41,7 +43,7 @@ func init() {
 			"'the same chart' is judged on what the statement lists: metadata fields, raw values.yaml bytes, parsed values, schema bytes, lock (time with Equal), templates and files by name byte for byte, dependency tree by chart name; order of files/dependencies and Chart.Raw other than values.yaml are not compared (Chart.yaml is re-serialised by design)",
 			"nil, empty list, empty map and empty string are the same value of an optional metadata field",
 			".helmignore rule alphabet: literals, '*', '?', leading '/', trailing '/', comment, blank line - at most two rules per file; negation, character classes, escapes and '**' are not generated; the loader's built-in rule templates/.?* is part of the reference matcher",
-			"invalid names are ../x, a/b and the empty string, invalid versions 1.x and the empty string, as the property lists them",
+			"invalid names are ../x, a/b and the empty string, invalid versions 1.x and the empty string, as the property lists them; the names '.' and '..' are counted as invalid too (they relocate the archive entries like ../x does) and are reported under keys of their own",
 		},
 		RequiredFloors: []string{"roundtrip-equal:save", "roundtrip-equal:savedir", "roundtrip-equal:package", "dir-vs-archive-equal", "ignored-file-kept-out-of-archive",
 			"ignored-by-directory-rule", "rule-matched-nothing-extra", "input-rejected", "dep-tree-depth-2", "apiversion-v1", "lock-compared", "schema-compared", "bom-seen", "invalid-rejected:save", "invalid-rejected:package"},
@@ -139,16 +141,29 @@ type caseResult struct {
 func (r *caseResult) out(s string)   { r.Outcomes = append(r.Outcomes, s) }
 func (r *caseResult) floor(s string) { r.Floors = append(r.Floors, s) }
 
-// classify turns chart differences into issues. exempt says which differences
-// the statement excuses on this route.
+// classify turns chart differences into issues: recognised classes get a
+// Class, differences the statement excuses on this route are dropped.
 func classify(route string, rules []string, ds []diff, res *caseResult) {
+	isBOM := func(d diff) bool {
+		return d.Detail == "differs" && bytes.HasPrefix(d.A, bom) && bytes.Equal(d.B, d.A[len(bom):])
+	}
+	// a values.yaml that loses a BOM may also parse differently: same cause
+	bomValues := map[string]bool{}
+	for _, d := range ds {
+		if d.Kind == "values-raw" && isBOM(d) {
+			bomValues[strings.TrimSuffix(d.Path, "values.yaml")+"values"] = true
+		}
+	}
 	for _, d := range ds {
 		is := issue{Route: route, Kind: d.Kind, Detail: d.Detail, What: d.String()}
 		content := d.Kind == "template" || d.Kind == "file" || d.Kind == "values-raw" || d.Kind == "schema"
 		switch {
-		case content && d.Detail == "differs" && bytes.HasPrefix(d.A, bom) && bytes.Equal(d.B, d.A[len(bom):]):
+		case content && isBOM(d):
 			is.Class = "leading-bom-stripped"
 			is.What = fmt.Sprintf("%s %s starts with a UTF-8 BOM (%s); after the round trip the first BOM is gone (%s)", d.Kind, d.Path, excerpt(d.A), excerpt(d.B))
+		case d.Kind == "values-parsed" && bomValues[d.Path]:
+			is.Class = "leading-bom-stripped"
+			is.What = "values.yaml loses its first UTF-8 BOM in the round trip and then parses differently: " + d.String()
 		case (d.Kind == "template" || d.Kind == "file") && d.Detail == "missing-after":
 			if ign, rule := refIgnored(rules, d.Path); ign {
 				if route == "dir-vs-archive" {
@@ -156,11 +171,12 @@ func classify(route string, rules []string, ds []diff, res *caseResult) {
 					continue // "apart from files excluded by ignore rules"
 				}
 				if route == "savedir-loaddir" {
-					is.Class = "file-dropped-by-ignore-rule/user-rule"
-					if rule == defaultRule {
-						is.Class = "file-dropped-by-ignore-rule/built-in-rule"
-					}
-					is.What = fmt.Sprintf("%s %s of the in-memory chart is written by SaveDir but excluded by ignore rule %q when the directory is loaded again", d.Kind, d.Path, rule)
+					// Loading a directory honours ignore rules; the statement itself excepts
+					// "files excluded by ignore rules" for directory loads, so a file that
+					// SaveDir wrote and LoadDir's rules drop again is counted, not judged.
+					_ = rule
+					res.floor("savedir-loaddir-ignored-file-exempt")
+					continue
 				}
 			}
 		}
@@ -203,6 +219,9 @@ func evalCase(ids []string) (res caseResult) {
 
 	// ----- (c) and (d): the file set as a directory
 	routeDir(fs, b, dir, &res)
+	for i := range res.Issues {
+		res.Issues[i].What = strings.ReplaceAll(res.Issues[i].What, dir, "<tmp>")
+	}
 	return
 }
 
@@ -298,12 +317,8 @@ func routeDir(fs []file, b *build, dir string, res *caseResult) {
 	errD := guard(func() (e error) { D, e = loader.LoadDir(src); return })
 
 	// (d) the same content as an archive written by the harness
-	full := filepath.Join(dir, "full.tgz")
-	if err := os.WriteFile(full, mkTgz(b.name, fs), 0o644); err != nil {
-		panic(err)
-	}
 	var T *chart.Chart
-	errT := guard(func() (e error) { T, e = loader.LoadFile(full); return })
+	errT := guard(func() (e error) { T, e = loader.LoadArchive(bytes.NewReader(mkTgz(b.name, fs))); return })
 	switch {
 	case errD != nil && errT != nil:
 		res.out("dir:input-rejected")
@@ -311,7 +326,7 @@ func routeDir(fs []file, b *build, dir string, res *caseResult) {
 		return
 	case errD != nil || errT != nil:
 		res.Issues = append(res.Issues, issue{Route: "dir-vs-archive", Kind: "load-disagrees", Detail: "error",
-			What: fmt.Sprintf("the same content loads from one form only: LoadDir error=%v, LoadFile error=%v", errD, errT)})
+			What: fmt.Sprintf("the same content loads from one form only: LoadDir error=%v, LoadArchive error=%v", errD, errT)})
 		if errD != nil {
 			return
 		}
@@ -413,6 +428,16 @@ func routeDir(fs []file, b *build, dir string, res *caseResult) {
 	classify("package-loadfile", b.ignore, ds, res)
 }
 
+// digest identifies a file set (names and contents).
+func digest(fs []file) string {
+	h := sha256.New()
+	for _, f := range fs {
+		fmt.Fprintf(h, "%d:%s:%d:", len(f.Name), f.Name, len(f.Data))
+		h.Write(f.Data)
+	}
+	return hex.EncodeToString(h.Sum(nil))
+}
+
 func fileData(fs []file, name string) []byte {
 	for _, f := range fs {
 		if f.Name == name {
@@ -460,13 +485,15 @@ func report(ids []string, issues []issue) []found {
 		}
 		seen[g] = true
 		cur, what := ids, is.What
-		for i := 0; i < len(cur); {
-			try := append(append([]string{}, cur[:i]...), cur[i+1:]...)
-			if h := hasGroup(evalCase(try).Issues, g); h != nil {
-				cur, what = try, h.What
-				continue
-			}
-			i++
+		switch {
+		case is.Class != "" && minimisedClass[g]:
+		case is.Class == "" && knownMinimal(g, ids) != nil:
+			m := knownMinimal(g, ids)
+			cur, what = m.ids, m.what
+		default:
+			cur, what = minimise(ids, g, is.What)
+			minimisedClass[g] = true
+			minimalSets[g] = append(minimalSets[g], minimalSet{cur, what})
 		}
 		key := g
 		if is.Class == "" {
@@ -479,6 +506,91 @@ func report(ids []string, issues []issue) []found {
 			Replay: replayData{Mode: "rt", Devs: cur}})
 	}
 	return out
+}
+
+// minimisedClass: recognised classes are minimised once per process (their
+// key does not depend on the result; only the written-out example does).
+var minimisedClass = map[string]bool{}
+
+// minimalSets remembers, per issue group, the minimised deviation sets this
+// process has already executed and seen failing. A later case that contains
+// one of them (directly or as a simpler form of one of its deviations) is
+// reported under that set without minimising again: the set itself was run, so
+// the report is about an executed case, and the cost of a defect that breaks
+// many cases stays bounded.
+type minimalSet struct {
+	ids  []string
+	what string
+}
+
+var minimalSets = map[string][]minimalSet{}
+
+func simplerOrSame(id, m string) bool {
+	if id == m {
+		return true
+	}
+	for _, s := range devByID(id).Simpler {
+		if simplerOrSame(s, m) {
+			return true
+		}
+	}
+	return false
+}
+
+func knownMinimal(g string, ids []string) *minimalSet {
+	for i, m := range minimalSets[g] {
+		all := true
+		for _, want := range m.ids {
+			found := false
+			for _, id := range ids {
+				if simplerOrSame(id, want) {
+					found = true
+				}
+			}
+			all = all && found
+		}
+		if all {
+			return &minimalSets[g][i]
+		}
+	}
+	return nil
+}
+
+// minimise greedily drops deviations, then replaces them by simpler ones, as
+// long as the case still shows an issue of group g.
+func minimise(ids []string, g, what string) ([]string, string) {
+	cur := ids
+	shows := func(try []string) bool {
+		if _, ok := buildCase(try); !ok {
+			return false
+		}
+		if h := hasGroup(evalCase(try).Issues, g); h != nil {
+			cur, what = try, h.What
+			return true
+		}
+		return false
+	}
+	for changed := true; changed; {
+		changed = false
+		for i := 0; i < len(cur); {
+			if shows(append(append([]string{}, cur[:i]...), cur[i+1:]...)) {
+				changed = true
+			} else {
+				i++
+			}
+		}
+		for i := 0; i < len(cur); i++ {
+			for _, s := range devByID(cur[i]).Simpler {
+				try := append([]string{}, cur...)
+				try[i] = s
+				if shows(try) {
+					changed = true
+					break
+				}
+			}
+		}
+	}
+	return cur, what
 }
 
 func replay(c *core.Ctx, data json.RawMessage) []core.Violation {
@@ -503,7 +615,13 @@ func replay(c *core.Ctx, data json.RawMessage) []core.Violation {
 
 // ---------- invalid names and versions ----------
 
-func isInvalidName(n string) bool { return n == "" || strings.ContainsAny(n, "/") }
+// isInvalidName: the names the property lists (empty, or containing a path
+// separator) plus the two path-special names "." and "..", which change the
+// location of the archive's entries exactly like ../x does (reported under
+// their own keys).
+func isInvalidName(n string) bool {
+	return n == "" || n == "." || n == ".." || strings.ContainsAny(n, "/")
+}
 func isInvalidVersion(v string) bool {
 	return v == "" || v == "1.x"
 }
@@ -611,15 +729,15 @@ func run(c *core.Ctx) {
 			for i, j := range idx {
 				ids[i] = devTable[j].ID
 			}
-			if _, ok := buildCase(ids); !ok {
+			b, ok := buildCase(ids)
+			if !ok {
 				return // two deviations set the same file: not a member of the space
 			}
 			if !c.NextMine() {
 				return
 			}
-			canon := "rt|" + strings.Join(ids, "+")
-			c.Mark(canon)
-			c.Distinct(canon)
+			c.Mark("rt|" + strings.Join(ids, " | "))
+			c.Distinct("rt|" + digest(b.fileSet())) // distinct = distinct file sets ({v1, req} and {v1+req} are one chart)
 			c.Depth(len(ids))
 			res := evalCase(ids)
 			c.Eval(int64(len(res.Outcomes)))
@@ -644,11 +762,15 @@ func run(c *core.Ctx) {
 	}
 
 	if c.Only == "" || c.Only == "invalid" {
-		names := []string{"base", "../x", "a/b", ""}
+		names := []string{"base", "../x", "a/b", "", ".", ".."}
 		versions := []string{"0.1.0", "1.x", ""}
 		var devsets [][]string
 		devsets = append(devsets, nil)
 		for _, d := range devTable {
+			// one .helmignore set is enough here: rule sets and name/version validation do not meet
+			if strings.HasPrefix(d.ID, "ign:") && d.ID != "ign:star-txt" {
+				continue
+			}
 			devsets = append(devsets, []string{d.ID})
 		}
 		for _, ds := range devsets {
